@@ -14,6 +14,8 @@ import Sourcer.Syntax
 import Sourcer.Proofs.EnvProofs
 import Sourcer.Proofs.OpShape
 import Sourcer.Proofs.FuelMono
+import Sourcer.Proofs.Shift
+import Sourcer.Proofs.Rename
 import Sourcer.Proofs.EnvSubst
 /-
   Property theorems (statements only; proofs are one-liners over Sourcer/Proofs/*).
@@ -1185,5 +1187,61 @@ example : wsProgram C06Example.closedProg = true ∧
       (subst [("pa", XExpr.seq [.cc 97 99, .lit [98]])] (.seq [.pvar "pa", .opt (.pvar "pa")])) [] 0 =
       some (.ok (.list [.list [.str [97], .str [98]], .list [.str [99], .str [98]]]) 4) := by
   refine ⟨by decide, by decide, by decide, by rfl, by rfl⟩
+
+/-! ## C08 – the shift law; C20 – renaming -/
+
+/-- **C08, last clause.**  For grammars without lookbehind, and a regex matcher that is itself
+    shift-invariant (no anchors), parsing `pre ++ text` from `pre.length + p` is parsing `text`
+    from `p` with every reported position - the end position and the spans of all objects in the
+    value - moved by `pre.length`; both sides are defined together.  Operator tables included. -/
+theorem C08_shift_law (P : Program) (pre inp : List Nat) (hm : MatcherShift P pre inp)
+    (hP : noBacktrackProg P = true) (fuel : Nat) (e : Expr) (p : Nat) (he : noBacktrack e = true) :
+    peg P (pre ++ inp) fuel e (pre.length + p) = (peg P inp fuel e p).map (shiftRes pre.length) :=
+  peg_shift P pre inp hm hP fuel e p he
+
+/-- … and the generated code follows: wherever the meaning on `text` is defined, the code model on
+    `pre ++ text` from the shifted position returns the shifted outcome -/
+theorem C08_shift_law_generated_code {F : FlagTable} (hF : LocallySound F) (P : Program) (pre inp : List Nat)
+    (hm : MatcherShift P pre inp) (hP : noBacktrackProg P = true) (fuel : Nat) (e : Expr) (p : Nat)
+    (he : noBacktrack e = true) (res : Res) (h : peg P inp fuel e p = some res) :
+    ∃ r, gen F P (pre ++ inp) fuel e (pre.length + p) = some r ∧ Rel r (shiftRes pre.length res) := by
+  refine gen_refines hF P (pre ++ inp) fuel e (pre.length + p) _ ?_
+  rw [peg_shift P pre inp hm hP fuel e p he, h]
+  rfl
+
+-- non-vacuity: `A = "a" >> "b"` (rule 0 of `exP`) on `ab` from 0 and on `xxab` from 2
+example : noBacktrackProg exP = true ∧ MatcherShift exP [120, 120] [97, 98] ∧
+    peg exP [97, 98] 5 (.ref 0) 0 = some (.ok (.str [98]) 2) ∧
+    peg exP ([120, 120] ++ [97, 98]) 5 (.ref 0) 2 = some (.ok (.str [98]) 4) := by
+  refine ⟨by decide, ?_, by rfl, by rfl⟩
+  intro rx p
+  rfl
+
+/-- **C20, on the meaning.**  Renaming classes and fields (`c`, `f`: any functions that leave the
+    API names `Infix`/`Prefix`/`Postfix`, `left`/`operator`/`right` alone) in a whole program changes
+    nothing but those names in the results: same definedness, same success or failure, same end
+    positions, the value renamed.  Rules are referred to by position in the model, parameters and
+    `let` variables by position in the environment of the names layer, so renaming them is the
+    identity by construction; what remains - Python identifiers of the generated text - is decided
+    by the correspondence of the C20 check. -/
+theorem C20_renaming_changes_only_names (c f : String → String) (hapi : FixesApi c f) (P : Program)
+    (inp : List Nat) (fuel : Nat) (e : Expr) (p : Nat) :
+    peg (renameProg c f P) inp fuel (renameExpr c f e) p = (peg P inp fuel e p).map (renameRes c f) :=
+  peg_rename c f hapi P inp fuel e p
+
+/-- an injective renaming keeps distinct classes distinct -/
+theorem C20_injective_renaming_keeps_classes_apart (c f : String → String) (hc : ∀ a b, c a = c b → a = b)
+    (a b : String) (fs gs : List (String × Val)) (sp sq : Option (Nat × Nat))
+    (h : renameVal c f (.obj a fs sp) = renameVal c f (.obj b gs sq)) : a = b :=
+  peg_rename_injective_distinct c f hc a b fs gs sp sq h
+
+-- non-vacuity: a class `K { first: "a" }` renamed to `len { slice: "a" }`
+example :
+    let c : String → String := fun s => if s = "K" then "len" else s
+    let f : String → String := fun s => if s = "first" then "slice" else s
+    FixesApi c f ∧
+    peg (renameProg c f exP) [97] 5 (renameExpr c f (.cls "K" [.str [97] false] [some "first"])) 0
+      = some (.ok (.obj "len" [("slice", .str [97])] (some (0, 1))) 1) := by
+  refine ⟨⟨by decide, by decide, by decide, by decide, by decide, by decide⟩, by rfl⟩
 
 end Sourcer
